@@ -213,11 +213,55 @@ static int longrun(uint64_t seed, long ops, int nkeys) {
   return mismatches ? 1 : 0;
 }
 
+// ---------- churn: a stable set of live keys while ever new keys are inserted and deleted -------------------
+// Tombstones accumulate until a rehash that does not grow the table purges them; the live keys must survive it.
+static int churn(uint64_t seed, int live, long pairs) {
+  rs = seed * 0x9E3779B97F4A7C15ull + 7;
+  HashMap map = {};
+  char **keys = malloc(sizeof(char *) * live);
+  int *present = calloc(live, sizeof(int));
+  for (int i = 0; i < live; i++) {
+    keys[i] = mkkey(1000000 + seed * 1000 + i);
+    hashmap_put(&map, keys[i], (void *)(long)(i + 1));
+    present[i] = 1;
+  }
+  // delete a random subset so that live keys sit behind deleted neighbours in their probe paths
+  for (int i = 0; i < live; i++)
+    if (rnd() % 3 == 0) { hashmap_delete(&map, keys[i]); present[i] = 0; }
+  long mism = 0, same_cap_purges = 0, sweeps = 0;
+  int lastcap = map.capacity, lastused = map.used;
+  for (long n = 0; n < pairs && !mism; n++) {
+    char *t = mkkey(5000000 + seed * 100000 + n);
+    hashmap_put(&map, t, (void *)-1L);
+    if (rnd() % 4 == 0) { int k = rnd() % live; if (!present[k]) { hashmap_put(&map, keys[k], (void *)(long)(k + 1)); present[k] = 1; } }
+    hashmap_delete(&map, t);
+    if (rnd() % 5 == 0) { int k = rnd() % live; hashmap_delete(&map, keys[k]); present[k] = 0; }
+    if (map.capacity == lastcap && map.used < lastused) same_cap_purges++;
+    int purged = map.used < lastused || map.capacity != lastcap;
+    lastcap = map.capacity; lastused = map.used;
+    if (purged || n % 97 == 0) {
+      sweeps++;
+      for (int g = 0; g < live; g++) {
+        void *v = hashmap_get(&map, keys[g]);
+        long want = present[g] ? g + 1 : 0;
+        if ((long)v != want) { printf("VIOLATION api churn step=%ld get(live#%d)=%ld expected %ld after %s (seed=%lu live=%d)\n", n, g, (long)v, want, purged ? "purging-rehash" : "probe", (unsigned long)seed, live); mism++; break; }
+      }
+      const char *inv = check_invariants(&map);
+      if (inv && !mism) { printf("VIOLATION invariant %s churn step=%ld (seed=%lu)\n", inv, n, (unsigned long)seed); mism++; }
+    }
+    free(t);
+  }
+  printf("STATS mode=churn seed=%lu live=%d pairs=%ld same_capacity_purges=%ld sweeps=%ld final_capacity=%d invariant_checks=%ld violations=%ld\n",
+         (unsigned long)seed, live, pairs, same_cap_purges, sweeps, map.capacity, inv_checks, mism);
+  return mism ? 1 : 0;
+}
+
 int main(int argc, char **argv) {
   signal(SIGABRT, on_abrt);
   setvbuf(stdout, NULL, _IOLBF, 0);
   if (argc >= 3 && !strcmp(argv[1], "small")) return small(atoi(argv[2]));
   if (argc >= 5 && !strcmp(argv[1], "random")) return longrun(strtoull(argv[2], 0, 10), atol(argv[3]), atoi(argv[4]));
+  if (argc >= 5 && !strcmp(argv[1], "churn")) return churn(strtoull(argv[2], 0, 10), atoi(argv[3]), atol(argv[4]));
   if (argc >= 2 && !strcmp(argv[1], "selftest")) { hashmap_test(); return 0; }
   fprintf(stderr, "usage\n");
   return 2;
